@@ -386,7 +386,10 @@ impl TcpListener {
             let _ = rusl::unistd::close(fd);
             return Err(e.into());
         }
-        rusl::network::listen(fd, NonNegativeI32::MAX)?;
+        if let Err(e) = rusl::network::listen(fd, NonNegativeI32::MAX) {
+            let _ = rusl::unistd::close(fd);
+            return Err(e.into());
+        }
         Ok(Self(OwnedFd(fd)))
     }
     /// Get this socket's local bind address
